@@ -270,8 +270,35 @@ class Ctx:
                     self.break_("axiom:%s" % a, "theorem depends on an axiom outside the stated trusted base")
         used = sorted({a for ax in axioms for a in ax})
         self.notes["axioms_used"] = used
+        if ok and self.tier == "thorough" and os.environ.get("VERIF_NO_COQCHK") != "1":
+            self.coqchk(props_file)
         self.notes["coq_log_tail"] = log[-1500:] if not ok else ""
         return ok
+
+    def coqchk(self, props_file):
+        """Thorough tier: re-check the compiled property file and everything it depends on with the
+        independent checker and record its context summary (axioms of every loaded library,
+        type-in-type / unsafe fixpoints / assumed positivity)."""
+        mod = "MD." + props_file[:-2].replace("/", ".")
+        r = subprocess.run(["timeout", "2400", "coqchk", "-silent", "-o", "-Q", ".", "MD", mod], cwd=COQ,
+                           stdout=subprocess.PIPE, stderr=subprocess.STDOUT, text=True)
+        out = r.stdout
+        summ = out[out.find("CONTEXT SUMMARY"):] if "CONTEXT SUMMARY" in out else out[-2000:]
+        self.notes.setdefault("coverage_extra", {})["coqchk"] = {"exit": r.returncode, "summary": summ[:6000]}
+        if r.returncode != 0:
+            self.break_("coqchk:%s" % props_file, out[-3000:])
+            return
+        for key in ("type-in-type", "unsafe (co)fixpoints", "positivity is assumed"):
+            m = re.search(re.escape(key) + r":\s*(.*)", summ)
+            if m and "<none>" not in m.group(1):
+                self.break_("coqchk:%s" % key, summ)
+        m = re.search(r"\* Axioms:(.*?)\n\s*\n\* Constants", summ, re.S)
+        if m and "<none>" not in m.group(1):
+            names = re.findall(r"^\s+([A-Za-z_][A-Za-z0-9_.']*)\s*$", m.group(1), re.M)
+            # coqchk prints fully qualified names (Coq.Reals....); compare by suffix with the allowed list
+            for n in names:
+                if not any(n.endswith(a) or a.endswith(n.split("Coq.")[-1]) for a in ALLOWED_AXIOMS):
+                    self.break_("coqchk-axiom:%s" % n, "coqchk lists an axiom outside the stated trusted base")
 
     def _theorem_at(self, relfile, line):
         try:
